@@ -90,6 +90,29 @@ def run(ck):
                 cases.append((f'r{k}{name}', f'rel_close (8#1000000) ({coq_Q(v)} * {coq_Q(v)}) (mse {coq_Qmat(T.tolist())} {coq_Qmat(P.tolist())}) && Qle_bool 0 {coq_Q(v)}'))
             else:
                 cases.append((f'r{k}{name}', f'rel_close (3#1000000) {coq_Q(v)} ({name} {coq_Qmat(T.tolist())} {coq_Qmat(P.tolist())})'))
+    # ---------- large validation sets: more rows than any internal block size, not a multiple of a power of two; residuals concentrated in the last rows ----------
+    for nbig in (32_773, 70_001):
+        for mcols in (1, 2):
+            Tb = np.round(rng.standard_normal((nbig, mcols)), 2).astype(np.float32)
+            Pb = Tb.copy(); Pb[-5:] += 4.0; Pb[: nbig // 3] += 0.25
+            tb, pb = torch.tensor(Tb), torch.tensor(Pb)
+            for name, orc in (('mse', o_mse), ('mae', o_mae), ('rmse', o_mse)):
+                v = float(Metric.from_name(name).compute(y_true_reg=tb, y_pred=pb))
+                dd = (Pb.astype(np.float64) - Tb.astype(np.float64))
+                wantf = float(np.mean(dd ** 2)) if name == 'mse' else (float(np.sqrt(np.mean(dd ** 2))) if name == 'rmse' else float(np.mean(np.abs(dd))))
+                ck.case(dict(metric=name, kind='large', n=nbig, m=mcols, value=v), nontrivial=True); ck.count(f'{name}:large validation set')
+                if abs(v - wantf) > 2e-5 * (1 + abs(wantf)):
+                    ck.violation(f'{name} returned {v} on {nbig} rows x {mcols} outputs, textbook value {wantf} (residuals: +0.25 on the first third, +4 on the last 5 rows)',
+                                 dict(metric=name, n=nbig, m=mcols, got=v, want=wantf), key=json.dumps(dict(site='value-large', metric=name)))
+            yb = rng.integers(0, 3, size=nbig); yb[:3] = np.arange(3)
+            Rb = rng.random((nbig, 3)).astype(np.float32) + 0.05; Rb[-7:] = np.eye(3, dtype=np.float32)[(yb[-7:] + 1) % 3] + 1e-3
+            Pc = (Rb / Rb.sum(1, keepdims=True)).astype(np.float32)
+            for name, orc in (('accuracy', o_acc), ('brier', o_brier), ('logloss', o_logloss)):
+                v = float(Metric.from_name(name).compute(y_true_class=torch.tensor(yb), y_pred_proba=torch.tensor(Pc)))
+                wantf = float(orc(yb, Pc))
+                ck.case(dict(metric=name, kind='large', n=nbig, value=v), nontrivial=True); ck.count(f'{name}:large validation set')
+                if abs(v - wantf) > 5e-5 * (1 + abs(wantf)):
+                    ck.violation(f'{name} returned {v} on {nbig} rows, textbook value {wantf}', dict(metric=name, n=nbig, got=v, want=wantf), key=json.dumps(dict(site='value-large', metric=name)))
     # ---------- classification metrics ----------
     for k in range(ck.n(50, 500)):
         K = int(rng.integers(2, 6)); n = int(rng.integers(K, 14))
